@@ -226,6 +226,27 @@ func checkC17(c C17Case, rec *obs.Recorder) *obs.Violation {
 					return v
 				}
 			}
+		case "append-default-rng":
+			// no random source given: the library's default one is used, twice on the same parent with
+			// the same content (the identifiers still differ; nothing else is asserted about their value)
+			if parent.sealed {
+				continue
+			}
+			ci := op.Content % len(c.Contents)
+			hist = append(hist, fmt.Sprintf("append-default-rng(t%d,c%d,x2)", on, ci))
+			for k := 0; k < 2; k++ {
+				nt, err := bridge.AppendBlock(parent.tok, nil, c.Contents[ci])
+				if err != nil {
+					return obs.Violf("history [%s]: append with the default random source failed: %v", strings.Join(hist, ","), err)
+				}
+				live = append(live, c17Tok{tok: nt, signed: append(append([]int{}, parent.signed...), nextSign)})
+				nextSign++
+				contentSigned[ci]++
+				sameContentTwice = true
+				if v := observe(len(live)-1, &parent); v != nil {
+					return v
+				}
+			}
 		case "build-again":
 			// the builder that made the first token is asked for another one: a new signing operation
 			hist = append(hist, "build-again")
@@ -336,7 +357,7 @@ func drawC17(t *rapid.T) C17Case {
 	n := rapid.IntRange(1, 14).Draw(t, "nops")
 	for i := 0; i < n; i++ {
 		c.Ops = append(c.Ops, C17Op{
-			Op:      rapid.SampledFrom([]string{"append", "append", "append", "append-last", "append-last", "seal", "reload", "reload", "build", "build-again", "fanout", "append-twice"}).Draw(t, "op"),
+			Op:      rapid.SampledFrom([]string{"append", "append", "append", "append-last", "append-last", "seal", "reload", "reload", "build", "build-again", "fanout", "append-twice", "append-default-rng"}).Draw(t, "op"),
 			On:      rapid.IntRange(0, 11).Draw(t, "on"),
 			Content: rapid.IntRange(0, 1).Draw(t, "content"),
 		})
